@@ -159,7 +159,7 @@ class Inliner:
     def helper_of(self, call) -> Optional[str]:
         if not isinstance(call, ast.Call):
             return None
-        if self.module is not None:
+        if self.module is not None and not (self.cls and isinstance(call.func, ast.Attribute)):
             if not isinstance(call.func, ast.Name):
                 return None
             name = call.func.id
@@ -385,3 +385,19 @@ def inlined_module_view(ctx, modname: str, exclude=frozenset()):
     view._cache = {"inline-info": {"absorbed": absorbed, "inlined_calls": dict(inl.inlined_calls)}}
     ctx._cache[key] = view
     return view
+
+
+def inlined_function(ctx, q: str, exclude=frozenset()):
+    """FuncInfo of `q` with the private helpers it calls as whole statements - methods of its class (`self._h(..)`) and private
+    module-level functions of its module (`_h(..)`) - substituted into its body.  Nothing is removed from the program; rules
+    anchored on one function use this so that delegating its body to a helper does not hide it."""
+    key = "inlined-fn:%s:%s" % (q, ",".join(sorted(exclude)))
+    if key in ctx._cache:
+        return ctx._cache[key]
+    fi = ctx.p.functions[q]
+    inl = Inliner(ctx.p, fi.cls, exclude=exclude)
+    inl.module = fi.module
+    node = inl.inline_method(q)
+    out = dataclasses.replace(fi, node=node)
+    ctx._cache[key] = out
+    return out
